@@ -14,6 +14,7 @@ from . import kani_run, overlay, registry, replay
 
 VERIF = overlay.VERIF
 KNOWN = os.path.join(VERIF, "known_findings.txt")
+REPLAYS_DONE = [0]
 
 STD_ASSUMPTIONS = [
     "Kani 0.68 / CBMC 6.11 / CaDiCaL are sound for the checks they report (bit-precise, unwinding assertions on)",
@@ -113,9 +114,11 @@ def run_property(pid, tier, seed):
             need = h.get("mem_gb", 8)
             budget.acquire(need)
             try:
-                return kani_run.run_harness(scratch, h, logd, h["timeout"])
+                r = kani_run.run_harness(scratch, h, logd, h["timeout"])
             finally:
                 budget.release(need)
+            apply_expected_failures(h, r)
+            return r
 
         with cf.ThreadPoolExecutor(max_workers=workers) as ex:
             futs = {ex.submit(job, h): h for h in hs}
@@ -137,6 +140,9 @@ def run_property(pid, tier, seed):
             if r.get("engine_error") or r["timed_out"] or r["verdict"] is None or r.get("compile_or_cbmc_error"):
                 why = "timeout" if r["timed_out"] else ("engine/compile/solver error (see %s)" % r.get("log"))
                 inconclusive.append("%s: %s" % (h["name"], why))
+                continue
+            if h.get("expected_failures") and not r.get("expected_failures_seen") and r["verdict"] == "SUCCESSFUL":
+                inconclusive.append("%s: the failure this harness must provoke was not reached" % h["name"])
                 continue
             if r["verdict"] == "SUCCESSFUL":
                 if covers_bad:
@@ -174,6 +180,23 @@ def run_property(pid, tier, seed):
         return 2
     print("OK property=%s tier=%s harnesses=%d wall=%.0fs" % (pid, tier, len(results), wall))
     return 0
+
+
+def apply_expected_failures(h, r):
+    """Failures a harness is *meant* to provoke (e.g. the panic of Golden::assert on differing content):
+    matched by description and location, removed from the failed set, but required to be present."""
+    exp = h.get("expected_failures") or []
+    if not exp or r.get("verdict") != "FAILED":
+        return
+
+    def is_exp(c):
+        return any(e["desc"] in c["description"] and e["loc"] in c["location"] for e in exp)
+    hit = [c for c in r["failed"] if is_exp(c)]
+    rest = [c for c in r["failed"] if not is_exp(c)]
+    r["expected_failures_seen"] = [c["description"] + " @ " + c["location"] for c in hit]
+    r["failed"] = rest
+    if hit and not rest and r["undetermined"] == 0:
+        r["verdict"] = "SUCCESSFUL"
 
 
 def summarise(pid, r):
@@ -221,6 +244,7 @@ def triage_failure(pid, h, r, scratch, known):
         doc = replay.write_replay_file(path, pid, h, vec, fails,
                                        {"solver_failed_check": {"kind": t["kind"], "description": t["description"]}})
         res = replay.native_replay(doc)
+        REPLAYS_DONE[0] += 1
         doc["native_replay"] = res
         with open(path, "w") as f:
             json.dump(doc, f, indent=1)
@@ -321,6 +345,8 @@ def write_evidence(pid, tier, seed, spec, results, violations, known_hits, incon
             "stubs_applied": r.get("stubs"),
             "vccs_generated_remaining": r.get("vccs"),
             "symex_s": r.get("symex_s"),
+            "symex_steps": r.get("symex_steps"),
+            "expected_failures_seen": r.get("expected_failures_seen"),
             "solver_s": r.get("solver_s"),
             "verification_time_s": r.get("verification_time_s"),
             "wall_s": r.get("wall_s"),
@@ -338,6 +364,13 @@ def write_evidence(pid, tier, seed, spec, results, violations, known_hits, incon
                     "decided over all harnesses of this run; distinct_nontrivial = those obligations, in harnesses "
                     "with a conclusive SUCCESSFUL verdict, that are reachable (status SUCCESS, not UNREACHABLE) plus "
                     "SATISFIED vacuity covers; each is a distinct (harness, check id) pair",
+            "states": max(1, sum(r.get("symex_steps") or 0 for r in results)),
+            "transitions": max(1, sum((r.get("vccs") or [0, 0])[0] for r in results)),
+            "traces_validated_against_impl": sum(len(v.get("native", {})) for v in violations) + REPLAYS_DONE[0],
+            "states_transitions_meaning": "states = steps of the unwound program CBMC executed symbolically (SSA program-expression "
+                                          "size it reports), summed over harnesses; transitions = verification conditions generated from "
+                                          "them before simplification; traces_validated_against_impl = counterexamples / witness inputs "
+                                          "replayed natively against the real crates in this run",
             "obligations": len(results),
             "discharged": len(discharged),
             "samples": samples,
